@@ -48,4 +48,34 @@ def srvEnvGen {σ : Type} (S : Store σ) (c : SrvCfg) (o : HOracle) : Gen.Env (H
 def DbBounded {σ : Type} (db : IPDB σ) : Prop :=
   db.netFrom < 4294967296 ∧ db.netTo < 4294967296 ∧ db.dynFrom < 4294967296 ∧ db.dynTo < 4294967296
 
+/-! ### Sequential histories -/
+
+/-- The model: packets handled one after the other (one handler in flight), frames in order. -/
+def handleSeq {σ : Type} (S : Store σ) (c : SrvCfg) : IPDB σ → List (Rx × HOracle) → IPDB σ × List Frame
+  | db, [] => (db, [])
+  | db, (rx, o) :: rest =>
+    let r := handle S c db rx o
+    let r' := handleSeq S c r.1 rest
+    (r'.1, r.2.toList ++ r'.2)
+
+/-- The translated stack (handlers over the translated lease database) on the same history; `rnd` is the value
+`rand.Int63n(2)` returned for the DISCOVER delay of each packet. -/
+def stackSeq {σ : Type} (S : Store σ) (c : SrvCfg) (sx : Gen.server.server) :
+    IPDB σ → List (Rx × HOracle × Int) → R (IPDB σ × List Frame)
+  | db, [] => .ok (db, [])
+  | db, (rx, o, rnd) :: rest =>
+    match (Gen.server.server_handleMsg (srvEnvGen S c o) sx (ipToGen rx.src) (ipToGen rx.dst) (msgToGen rx.msg) rnd).run
+            { db := db, lookups := 0, sent := [] } with
+    | .error e => .error e
+    | .ok (_, st) =>
+      match stackSeq S c sx st.db rest with
+      | .error e => .error e
+      | .ok (db', fs) => .ok (db', st.sent ++ fs)
+
+/-- Every message of the history has decoded field widths, and every address the handlers look up along the model run
+is a 32-bit value. -/
+def SeqOk {σ : Type} (S : Store σ) (c : SrvCfg) : IPDB σ → List (Rx × HOracle × Int) → Prop
+  | _, [] => True
+  | db, (rx, o, _) :: rest => MsgRanges rx.msg ∧ LookupsBounded S db rx o ∧ SeqOk S c (handle S c db rx o).1 rest
+
 end PsaDhcp.Code
